@@ -500,6 +500,20 @@ def run_case(case, acc):
         except Exception as e:  # noqa: BLE001
             acc.case(case, True, [("construct_exception", f"Process() raised {e!r}")])
             return
+        moved = harness.chash(case)[-2] in "012"
+        if moved:
+            # psutil.PROCFS_PATH is re-pointed after the object was made: the object keeps describing the process of the procfs
+            # it was created on; the new tree has somebody else under the same pid (same start time)
+            tb = ProcTable(btime=1_700_000_000)
+            tb.spawn(1, 1, ppid=0, comm=b"init")
+            pb = tb.spawn(case["pid"], 4242, ppid=1, comm=b"somebody-else")
+            pb.cmdline = b"/sbin/somebody-else\0--other\0"
+            pb.environ = b"WHO=else\0"
+            pb.exe = "/sbin/somebody-else"
+            pb.cwd = "/var/empty"
+            vk.mount("/vprocB", tb)
+            ps.PROCFS_PATH = "/vprocB"
+            acc.count("cases_with_procfs_path_moved_after_construction")
         r_cmd = call(pr.cmdline)
         r_env = call(pr.environ)
         r_exe = call(pr.exe)
@@ -517,6 +531,8 @@ def run_case(case, acc):
             p.cmdline = os.fsencode(new_argv0) + b"\0--flag\0"
             r_name_after = (call(pr.name), new_argv0)
             p.cmdline = block
+        if moved:
+            ps.PROCFS_PATH = "/vproc"
         # the same record through the other call paths: a fresh object asked in the opposite order inside a oneshot()
         # block, and as_dict() on a third one. A static record must read the same whichever path is taken.
         plain = dict(cmdline=r_cmd, environ=r_env, exe=r_exe, cwd=r_cwd, name=r_name)
